@@ -20,9 +20,12 @@ func (x *fx) envAt(st *State, at *ssa.BasicBlock, override map[*ssa.Phi]Term, at
 	} else if x.fn.Pkg != nil {
 		env.pkg = x.fn.Pkg.Pkg
 	}
+	env.shadowable = map[string]bool{}
 	for k, v := range x.params {
 		env.vars[k] = v
+		env.shadowable[k] = true
 	}
+	env.preferResolve = at != nil && !atEnd
 	env.resolve = func(name string) (TV, bool) {
 		return x.resolveName(name, at, override, st, atEnd)
 	}
@@ -262,11 +265,10 @@ func (x *fx) loopInvariants(li *loopInfo, eff *Effects) []invItem {
 	// automatic function-frame invariant: objects that existed at function
 	// entry and are not in the function's modifies list are unchanged.
 	if x.top && fc != nil && fc.Mod(e.profile) != nil && !eff.All {
-		mc := fc.Mod(e.profile)
 		for _, bf := range sortedKeys(eff.Writes) {
 			for _, fam := range e.famArrays(bf) {
 				fam := fam
-				out = append(out, invItem{name: fmt.Sprintf("%d:frame:%s", li.ordinal, fam), props: mc.Props, text: "function frame holds for " + fam, eval: func(env *Env) (Term, error) {
+				out = append(out, invItem{name: fmt.Sprintf("%d:frame:%s", li.ordinal, fam), props: nil, text: "function frame holds for " + fam, eval: func(env *Env) (Term, error) {
 					return x.frameGoal(env, fam)
 				}})
 			}
@@ -369,6 +371,16 @@ func (x *fx) loopHead(li *loopInfo, b *ssa.BasicBlock, st *State, reach Term, pr
 					}
 				}
 			}
+		}
+	}
+	// call logs are loop-carried ghost state
+	loopCalls := e.effCtx().mayLogBlocks(x.fn, li.blocks)
+	for _, gk := range sortedKeys(head.ghost) {
+		if !loopCalls {
+			break
+		}
+		if strings.HasPrefix(gk, "n:") || strings.HasPrefix(gk, "ret:") || strings.HasPrefix(gk, "arg:") {
+			head.ghost[gk] = e.declare("ghost:"+gk, e.ghostSort(gk))
 		}
 	}
 	li.phiConst = map[*ssa.Phi]Term{}
